@@ -12,6 +12,13 @@ Fixpoint list_nat_eqb (a b : list nat) : bool :=
   | _, _ => false
   end.
 
+Fixpoint insert_nat (x : nat) (l : list nat) : list nat :=
+  match l with
+  | [] => [x]
+  | y :: r => if Nat.ltb x y then x :: l else if Nat.eqb x y then l else y :: insert_nat x r
+  end.
+Definition nat_set (l : list nat) : list nat := fold_right insert_nat [] l.
+
 Section Explore.
   Variables (G PC OP : Type).
   Variable lkof : G -> lk.
@@ -40,4 +47,16 @@ Section Explore.
             else explore f (succs s ++ r) (s :: visited)
         end
     end.
+
+  (* summary of an exhaustive exploration from s0: did any state carry the error flag, is any
+     unfinished state stuck, and the set of final-state codes (9 = exploration cut off) *)
+  Variable errf : G -> bool.
+  Variable finalf : G -> nat.
+
+  Definition conc_obs (fuel : nat) (s0 : st) : nat * nat * list nat :=
+    let '(vis, complete) := explore fuel [s0] [] in
+    let dn := all_done G PC OP is_idle in
+    (if existsb (fun s => errf (g s)) vis then 1 else 0,
+     if existsb (fun s => negb (dn s) && negb (some_enabled G PC OP lkof cstep mstep s)) vis then 1 else 0,
+     nat_set ((if complete then [] else [9]) ++ map (fun s => finalf (g s)) (filter dn vis))).
 End Explore.
